@@ -70,6 +70,8 @@ THEOREMS = [
     "C06_recovery_failure_pinned_witness",
     "C06_push_propagates",
     "C06_push_swallow_witness",
+    "C06_trigger_reset_before_callback",
+    "C06_trigger_callback_first_witness",
 ]
 RULE = (
     "(dag) random DAGs (2..N term nodes) x every kind of fault position (starting node, inner node, two at once) x "
@@ -189,6 +191,9 @@ def gen_cases(rng, tier):
     # parentless nodes wired by hand: pushes from a head, pulls from a tail
     for _ in range(70 if quick else 1200):
         yield gen_pchain_case(rng, N.EXCEPTIONS)
+    # ... with an all-of join, over several rounds (failed flags cleared in between)
+    for _ in range(60 if quick else 800):
+        yield gen_pjoin_case(rng, N.EXCEPTIONS)
     # failures during pulls of a child inside a workflow
     for _ in range(70 if quick else 1200):
         yield gen_pull_case(rng, N.EXCEPTIONS)
@@ -249,6 +254,8 @@ def corpus():
            "op": "push", "at": 0, "fails": {"1": "ValueError"}, "prerun": True}
     yield {"kind": "pchain", "n": 3, "order": [0, 1, 2], "slots": {"0": [[], [], []], "1": [[0], [], []], "2": [[1], [], []]},
            "op": "pull", "at": 2, "fails": {"1": "ValueError"}, "prerun": True}
+    # all-of join of parentless nodes: round 1 the join raises, round 2 a head raises
+    yield {"kind": "pjoin", "heads": 2, "rounds": [{"fails": {"2": "ValueError"}}, {"fails": {"0": "KeyError"}}]}
     # sys.exit() in a node function, locally and on the executor
     yield {"kind": "ktab", "exc": "SystemExit", "depth": 0, "execs": [False]}
     yield {"kind": "ktab", "exc": "SystemExit", "depth": 1, "execs": [True, False]}
@@ -427,6 +434,11 @@ def _run_once_with_chain(case):
 
 
 def run_impl(case):
+    if case["kind"] == "pjoin":
+        r = _run_pjoin(case)
+        return {"obs": [str(r)], "r": r, "runs": [r],
+                "stats": {"pjoin": 1, "pjoin_rounds": len(case["rounds"]),
+                          "fault_hit": int(any(p["raisers"] for ro in r["rounds"] for p in ro["pushes"]))}}
     if case["kind"] == "pchain":
         r = _run_pchain(case)
         hit = [i for i in case["fails"] if int(i) in r["calls"]]
@@ -560,7 +572,7 @@ def nontrivial(case, impl):
 
 
 def model_input(case, impl):
-    if "r" not in impl or case.get("base") or case["kind"] == "rx":  # harness error / outside the model
+    if "r" not in impl or case.get("base") or case["kind"] in ("rx", "pjoin"):  # harness error / outside the model
         return ["n 0", "run"]
     if case["kind"] == "pchain":
         return _pchain_model_input(case, impl["r"])
@@ -602,6 +614,8 @@ def model_input(case, impl):
 
 
 def diff(case, impl, model):
+    if case["kind"] == "pjoin":
+        return None  # oracle only (the Lean content is `pushA`: theorem + witness)
     if case["kind"] == "pchain":
         mine = _pchain_obs(case, impl["r"])
         if mine == list(model):
@@ -736,6 +750,8 @@ def oracle(case, impl):
         return _pull_oracle(case, r)
     if case["kind"] == "pchain":
         return _pchain_oracle(case, r)
+    if case["kind"] == "pjoin":
+        return _pjoin_oracle(case, r)
     if case["kind"] == "single":
         sup = case["suppress"]
         s = lambda c: {"clause": c, "kind": "single", "suppress": sup}  # noqa: E731
@@ -2680,4 +2696,129 @@ def _pchain_oracle(case, r):
     if bad:
         fails.append({"clause": "downstream-of-failure-executed", "detail": f"{bad} ran although {hit} failed",
                       "signature": sig("no-downstream")})
+    return fails
+
+
+# =====================================================================================================
+# parentless nodes with an ALL-OF join, over several rounds (kind "pjoin")
+# =====================================================================================================
+#
+# case = {"kind": "pjoin", "heads": k, "rounds": [{"fails": {"<node>": key}}, ...]}
+# parentless heads 0..k-1, a join node k waiting for ALL of them (`join.accumulate_and_run << (h.ran ...)`), a node
+# k+1 after it (`join >> down`). A round: the caller runs every head in turn; between rounds the failed flags are cleared
+# by hand. A failure downstream in one round, a failure upstream in the next.
+
+
+def gen_pjoin_case(rng, classes):
+    k = rng.randint(2, 3)
+    names = list(range(k + 2))
+    rounds = []
+    for _ in range(rng.randint(2, 4)):
+        r = rng.random()
+        if r < 0.35:
+            fl = [k]                      # the join's own function raises
+        elif r < 0.7:
+            fl = [rng.randrange(k)]       # a head raises
+        elif r < 0.8:
+            fl = [k + 1]
+        elif r < 0.9:
+            fl = rng.sample(names, 2)
+        else:
+            fl = []
+        rounds.append({"fails": {str(i): rng.choice(classes) for i in fl}})
+    return {"kind": "pjoin", "heads": k, "rounds": rounds}
+
+
+def _run_pjoin(case):
+    from . import nodes_c06 as N
+
+    N.reset()
+    k = case["heads"]
+    ns = {i: N.term_node(i, label=f"n{i}") for i in range(k + 2)}
+    for n in ns.values():
+        n.use_cache = False
+    for i, slot in zip(range(k), "abc"):
+        ns[k].inputs[slot].connect(ns[i].outputs.o)
+    ns[k + 1].inputs.a.connect(ns[k].outputs.o)
+    ns[k].signals.input.accumulate_and_run << tuple(ns[i].signals.output.ran for i in range(k))
+    ns[k] >> ns[k + 1]
+    out = []
+    for rd in case["rounds"]:
+        N.CALL_LOG.clear()
+        N.EXC.clear()
+        N.RAISED.clear()
+        N.EPOCH[0] += 1
+        for i, key in rd["fails"].items():
+            N.EXC[int(i)] = key
+        pushes = []
+        for h in range(k):
+            raised_before = set(N.RAISED)
+            n_calls = len(N.CALL_LOG)
+            exc = None
+            try:
+                ns[h].run()
+            except BaseException as e:  # noqa: BLE001
+                exc = e
+            new = sorted(set(N.RAISED) - raised_before)
+            pushes.append({"head": h, "raisers": new, "raised": exc is not None, "calls": list(N.CALL_LOG[n_calls:]),
+                           "carries": [i for i in new if any(x is N.RAISED[i] for x in _chain_objs(exc))],
+                           "type": None if exc is None else type(exc).__name__})
+        out.append({"pushes": pushes, "calls": list(N.CALL_LOG),
+                    "flags": {str(i): (bool(n.running), bool(n.failed)) for i, n in ns.items()}})
+        for n in ns.values():
+            n.failed = False  # as users do before they try again
+    return {"rounds": out}
+
+
+def _pjoin_oracle(case, r):
+    fails = []
+    k = case["heads"]
+
+    def sig(c, rd):
+        return {"clause": c, "kind": "pjoin", "round": min(rd, 1)}
+
+    seen, last_raised = set(), {}
+    for rd, (spec, ro) in enumerate(zip(case["rounds"], r["rounds"])):
+        raisers = sorted({i for p in ro["pushes"] for i in p["raisers"]})
+        for p in ro["pushes"]:
+            if p["raisers"] and not p["raised"]:
+                fails.append({"clause": "error-does-not-reach-caller",
+                              "detail": f"round {rd + 1}: run() of head {p['head']} returned although {p['raisers']} raised",
+                              "signature": sig("reaches-caller", rd)})
+            elif len(p["raisers"]) == 1 and not p["carries"]:
+                fails.append({"clause": "original-exception-lost",
+                              "detail": f"round {rd + 1}: head {p['head']}: caller got {p['type']}", "signature": sig("cause", rd)})
+        for i in raisers:
+            run, failed = ro["flags"][str(i)]
+            if run or not failed:
+                fails.append({"clause": "failing-node-flags", "detail": f"round {rd + 1}: {i}: running={run} failed={failed}",
+                              "signature": sig("node-flags", rd)})
+        for x, (run, failed) in ro["flags"].items():
+            if run:
+                fails.append({"clause": "node-left-running", "detail": f"round {rd + 1}: {x}", "signature": sig("left-running", rd)})
+            if failed and int(x) not in raisers:
+                fails.append({"clause": "unrelated-node-marked-failed", "detail": f"round {rd + 1}: {x}",
+                              "signature": sig("nobody-else", rd)})
+        # the join waits for ALL heads: it may run only when every head has announced completion (`ran`) since the join's
+        # trigger last fired — nobody resets the trigger of parentless nodes between rounds, so what it holds carries
+        # over; but a firing consumes what was collected, whatever became of the run it started
+        for p in ro["pushes"]:
+            h = p["head"]
+            last_raised[h] = h in p["raisers"]
+            if h not in p["raisers"]:
+                seen.add(h)
+            fire = len(seen) == k
+            if fire:
+                seen.clear()
+            if k in p["calls"] and not fire:
+                stale_failed = sorted(x for x in range(k) if x not in seen and last_raised.get(x))
+                if stale_failed:
+                    fails.append({"clause": "downstream-of-failure-executed",
+                                  "detail": f"round {rd + 1}, run() of head {h}: the join executed although head(s) {stale_failed} "
+                                            f"failed and have not completed since the join's trigger last fired; calls {p['calls']}",
+                                  "signature": sig("no-downstream", rd)})
+            if k in p["raisers"] and k + 1 in p["calls"]:
+                fails.append({"clause": "downstream-of-failure-executed",
+                              "detail": f"round {rd + 1}: the join failed, yet its successor ran: calls {p['calls']}",
+                              "signature": sig("no-downstream", rd)})
     return fails
